@@ -13,7 +13,16 @@ function of how *this* object was created.
 All theorems quantify over every list of generic class declarations without a
 repeated type-parameter name (`WF`), every history of instantiations (with
 type arguments, raw, through a constructor that stores its argument), typed
-writes and reads, of any length.
+writes, reads and method calls with a parameter declared `T`, of any length.
+
+A `new` can be executed through an AST node that is executed many times
+(`instAt site …`: a factory function, a loop body, a method, a closure); the
+node keeps what it resolved (`NewExpression.class`) and the model carries that
+(`State.cache`, `resolveAt`).  `SiteWF h` says only that `h` is the run of a
+program: a node has one text, i.e. two operations through the same node name
+the same class and the same written type arguments.  The specification does not
+know about nodes at all, so every theorem below covers objects created by the
+first, second, … n-th execution of one node as well as by different nodes.
 -/
 namespace C19
 open Model.Gen Spec.Gen Proofs.Gen
@@ -21,65 +30,103 @@ open Model.Gen Spec.Gen Proofs.Gen
 /-- **Refinement.** Every outcome of every history — which `new` succeeds,
 crashes or is aborted by its constructor, which write is accepted or rejected —
 is what the per-object specification prescribes. -/
-theorem C19_refines (decls : List Class) (hwf : WF decls) (h : List Op) :
+theorem C19_refines (decls : List Class) (hwf : WF decls) (h : List Op) (hs : SiteWF h) :
     (Model.Gen.run decls h).2 = Spec.Gen.run decls h :=
-  (runFrom_sim hwf h (init decls) [] (rel_init decls)).1
+  (run_sim hwf h hs).1
 
 /-- **Instance-local.** After *any* history, whether object `i` accepts value `v`
 in member `p` is decided by the class text and by the type arguments `i` itself
 was created with — nothing else (`created` lists the creation records; it is
 computed from each `new` alone). -/
-theorem C19_instance_local (decls : List Class) (hwf : WF decls) (h : List Op) (i p : Nat) (v : Val) :
+theorem C19_instance_local (decls : List Class) (hwf : WF decls) (h : List Op) (hs : SiteWF h)
+    (i p : Nat) (v : Val) :
     Model.Gen.writeOut (Model.Gen.run decls h).1 i p v =
       match (created decls h)[i]? with
       | none => Out.noInst
       | some r => if accepts decls r p v then Out.accepted else Out.rejected := by
-  have hr := (runFrom_sim hwf h (init decls) [] (rel_init decls)).2
-  rw [List.nil_append] at hr
-  rw [show Model.Gen.run decls h = Model.Gen.runFrom (init decls) h from rfl, writeOut_eq hr]
+  rw [writeOut_eq (run_sim hwf h hs).2]
   rfl
 
-/-- **Order / company irrelevant.** Two objects created with the same class and
-the same type arguments — in two arbitrary, unrelated histories, at arbitrary
-positions — accept exactly the same values in every member. In particular what
-was instantiated earlier, later, or how often does not matter. -/
-theorem C19_order_irrelevant (decls : List Class) (hwf : WF decls) (h₁ h₂ : List Op) (i₁ i₂ : Nat)
+/-- The same for a method parameter declared with a type parameter: after any history,
+`$x_i->take(v)` is decided by the creation record of object `i` alone. -/
+theorem C19_call_instance_local (decls : List Class) (hwf : WF decls) (h : List Op) (hs : SiteWF h)
+    (i name : Nat) (v : Val) :
+    Model.Gen.callOut (Model.Gen.run decls h).1 i name v =
+      Spec.Gen.outOf decls (created decls h) (.call i name v) :=
+  callOut_eq (run_sim hwf h hs).2 i name v
+
+/-- **Order / company / node irrelevant.** Two objects created with the same class and
+the same type arguments — in two arbitrary, unrelated histories (or in one: `h₁ = h₂`), at
+arbitrary positions, by different `new` nodes or by the first and the n-th execution of the
+same node — accept exactly the same values in every member and in every `T` parameter. In
+particular what was instantiated earlier, later, or how often does not matter. -/
+theorem C19_order_irrelevant (decls : List Class) (hwf : WF decls) (h₁ h₂ : List Op)
+    (hs₁ : SiteWF h₁) (hs₂ : SiteWF h₂) (i₁ i₂ : Nat)
     (r : Creation) (e₁ : (created decls h₁)[i₁]? = some r) (e₂ : (created decls h₂)[i₂]? = some r)
-    (p : Nat) (v : Val) :
+    (p name : Nat) (v : Val) :
     Model.Gen.writeOut (Model.Gen.run decls h₁).1 i₁ p v =
-      Model.Gen.writeOut (Model.Gen.run decls h₂).1 i₂ p v := by
-  rw [C19_instance_local decls hwf h₁, C19_instance_local decls hwf h₂, e₁, e₂]
+        Model.Gen.writeOut (Model.Gen.run decls h₂).1 i₂ p v ∧
+      Model.Gen.callOut (Model.Gen.run decls h₁).1 i₁ name v =
+        Model.Gen.callOut (Model.Gen.run decls h₂).1 i₂ name v := by
+  rw [C19_instance_local decls hwf h₁ hs₁, C19_instance_local decls hwf h₂ hs₂,
+    C19_call_instance_local decls hwf h₁ hs₁, C19_call_instance_local decls hwf h₂ hs₂]
+  simp only [outOf, e₁, e₂, and_self]
+
+/-- **Same node, executed again.** The objects made by two executions of one `new C<args>()`
+node — anywhere in a history, whatever ran in between, however often the node ran before —
+answer every write identically (the instance of `C19_order_irrelevant` the per-node cache of
+`resolveClass` has to satisfy). -/
+theorem C19_same_site_twins (decls : List Class) (hwf : WF decls) (h₁ h₂ h₃ : List Op) (site c : Nat)
+    (args : List Ty) (hok : arityOk decls c args = true)
+    (hs : SiteWF (h₁ ++ Op.instAt site c args :: h₂ ++ Op.instAt site c args :: h₃)) (p : Nat) (v : Val) :
+    let h := h₁ ++ Op.instAt site c args :: h₂ ++ Op.instAt site c args :: h₃
+    Model.Gen.writeOut (Model.Gen.run decls h).1 (created decls h₁).length p v =
+      Model.Gen.writeOut (Model.Gen.run decls h).1
+        ((created decls h₁).length + 1 + (created decls h₂).length) p v := by
+  intro h
+  have e : created decls h =
+      created decls h₁ ++ ⟨c, some args⟩ :: (created decls h₂ ++ ⟨c, some args⟩ :: created decls h₃) := by
+    simp [h, created, List.filterMap_append, creates, hok]
+  refine (C19_order_irrelevant decls hwf h h hs hs _ _ ⟨c, some args⟩ ?_ ?_ p 0 v).1
+  · rw [e]; simp
+  · rw [e, List.getElem?_append_right (by omega)]
+    have : (created decls h₁).length + 1 + (created decls h₂).length - (created decls h₁).length =
+        (created decls h₂).length + 1 := by omega
+    rw [this, List.getElem?_cons_succ]; simp
 
 /-- **"Instantiating `Box<int>` never changes what `Box<string>` accepts."**
 The object made by `new C<args>()` in the middle of an arbitrary history
 (`pre` before it, `post` after it) answers every write exactly as it does in
 the history that consists of that `new` alone. -/
-theorem C19_alone (decls : List Class) (hwf : WF decls) (pre post : List Op) (c : Nat) (args : List Ty)
-    (hok : arityOk decls c args = true) (p : Nat) (v : Val) :
-    Model.Gen.writeOut (Model.Gen.run decls (pre ++ Op.inst c args :: post)).1
+theorem C19_alone (decls : List Class) (hwf : WF decls) (pre post : List Op) (o : Op) (c : Nat)
+    (args : List Ty) (ho : creates decls o = some ⟨c, some args⟩) (hs : SiteWF (pre ++ o :: post))
+    (p : Nat) (v : Val) :
+    Model.Gen.writeOut (Model.Gen.run decls (pre ++ o :: post)).1
         (created decls pre).length p v =
       Model.Gen.writeOut (Model.Gen.run decls [Op.inst c args]).1 0 p v := by
-  apply C19_order_irrelevant decls hwf _ _ _ _ ⟨c, some args⟩
-  · simp [created, List.filterMap_append, creates, hok]
+  have hok : arityOk decls c args = true := creates_arity ho
+  refine (C19_order_irrelevant decls hwf _ _ hs (by simp [SiteWF]) _ _ ⟨c, some args⟩ ?_ ?_ p 0 v).1
+  · simp [created, List.filterMap_append, ho]
   · simp [created, creates, hok]
 
 /-- **Own argument, and only that.** For a member declared with the k-th type
 parameter, an object created with arguments `args` accepts `v` iff `args[k]`
 accepts `v` — after any history. -/
-theorem C19_accepts_exactly_own (decls : List Class) (hwf : WF decls) (h : List Op) (i p : Nat) (v : Val)
+theorem C19_accepts_exactly_own (decls : List Class) (hwf : WF decls) (h : List Op) (hs : SiteWF h)
+    (i p : Nat) (v : Val)
     (c : Nat) (args : List Ty) (cl : Class) (name k : Nat) (t : Ty)
     (hi : (created decls h)[i]? = some ⟨c, some args⟩) (hc : decls[c]? = some cl)
     (hp : cl.props[p]? = some (.generic name)) (hmem : name ∈ cl.params)
     (hk : cl.params.idxOf name = k) (ht : args[k]? = some t) :
     Model.Gen.writeOut (Model.Gen.run decls h).1 i p v = Out.accepted ↔ t.accepts v = true := by
-  rw [C19_instance_local decls hwf h, hi]
+  rw [C19_instance_local decls hwf h hs, hi]
   simp only [accepts, hc, hp, argOf, hmem, if_true, hk, ht]
   cases t.accepts v <;> simp
 
 /-- **The shared declarations are never written.** -/
-theorem C19_decls_never_mutated (decls : List Class) (hwf : WF decls) (h : List Op) :
+theorem C19_decls_never_mutated (decls : List Class) (hwf : WF decls) (h : List Op) (hs : SiteWF h) :
     (Model.Gen.run decls h).1.classes = decls :=
-  ((runFrom_sim hwf h (init decls) [] (rel_init decls)).2).classes
+  (run_sim hwf h hs).2.classes
 
 /-! ### The code before the fix: negation witness
 
@@ -91,10 +138,10 @@ def witness : List Op :=
 
 /-- On the pre-fix model the first lookup wins: the `Box<string>` object rejects a string … -/
 theorem C19_pinned_counterexample :
-    ¬ (∀ (decls : List Class) (h : List Op), WF decls →
+    ¬ (∀ (decls : List Class) (h : List Op), WF decls → SiteWF h →
         (Model.Gen.runShared decls h).2 = Spec.Gen.run decls h) := by
   intro hall
-  have := hall [box] witness (by decide)
+  have := hall [box] witness (by decide) (by decide)
   revert this
   decide
 
@@ -102,6 +149,22 @@ theorem C19_pinned_counterexample :
 theorem C19_witness_outcomes :
     (Model.Gen.runShared [box] witness).2 = [.created 0, .accepted, .created 1, .rejected] ∧
     (Model.Gen.run [box] witness).2 = [.created 0, .accepted, .created 1, .accepted] := by
+  decide
+
+/-! ### The node cache is really in the model
+
+`SiteWF` cannot be dropped: a "history" that uses one node with two texts is not the run of any
+program, and on it the model — which, like `resolveClass`, returns what the node stored on its
+first execution — departs from the specification.  (So an implementation whose node stores
+anything else than what it returns, e.g. the registered un-instantiated class, breaks
+`C19_refines` / `C19_same_site_twins` on a well-formed history: the second object of the node
+would answer as a raw object.) -/
+theorem C19_node_cache_is_modelled :
+    ¬ (∀ (decls : List Class) (h : List Op), WF decls →
+        (Model.Gen.run decls h).2 = Spec.Gen.run decls h) := by
+  intro hall
+  have := hall [box] [.instAt 0 0 [.int], .instAt 0 0 [.string], .write 1 0 .string] (by decide)
+  revert this
   decide
 
 /-! ### Non-vacuity -/
@@ -128,5 +191,30 @@ example : arityOk decls₀ 1 [.string, .cls 0] = true := by decide
 example : (created decls₀ hist₀)[2]? = some ⟨1, some [.string, .cls 0]⟩ ∧ decls₀[1]? = some pair ∧
     pair.props[1]? = some (.generic 1) ∧ 1 ∈ pair.params ∧ pair.params.idxOf 1 = 1 ∧
     [Ty.string, .cls 0][1]? = some (.cls 0) := by decide
+
+/- nodes executed repeatedly: node 7 = `new Box<int>()` three times (a factory / loop body), node 8 =
+`new Box<string>()`, node 9 = `new Box()`, node 5 = `new Box<array>($x)` whose constructor stores `$x`,
+interleaved with un-sited instantiations, writes and `T`-parameter calls -/
+def histS : List Op :=
+  [.instAt 7 0 [.int], .write 0 0 .string, .instAt 8 0 [.string], .instAt 7 0 [.int], .write 2 0 .string,
+   .write 1 0 .string, .instRawAt 9 0, .inst 0 [.array], .instAt 7 0 [.int], .write 4 0 .array,
+   .write 5 0 .int, .write 5 0 .string, .instCtorAt 5 0 [.array] 0 .int, .instCtorAt 5 0 [.array] 0 .array,
+   .instRawAt 9 0, .write 7 0 .int, .call 5 0 .string, .call 5 0 .int, .call 1 0 .null, .call 3 0 .int,
+   .call 5 1 .int]
+example : SiteWF histS := by decide
+example : (Model.Gen.run decls₀ histS).2 =
+    [.created 0, .rejected, .created 1, .created 2, .rejected, .accepted, .created 3, .created 4, .created 5,
+     .accepted, .accepted, .rejected, .rejected, .created 6, .created 7, .accepted, .rejected, .accepted,
+     .accepted, .accepted, .noMember] := by decide
+example : (Model.Gen.run decls₀ histS).2 = Spec.Gen.run decls₀ histS := by decide
+/- the early return of `resolveClass` is taken: the nodes hold something after the run -/
+example : (((Model.Gen.run decls₀ histS).1.cache 7).isSome, ((Model.Gen.run decls₀ histS).1.cache 5).isSome,
+    ((Model.Gen.run decls₀ histS).1.cache 6).isSome) = (true, true, false) := by decide
+/- `C19_same_site_twins`: h₁ = [], h₂ = 2 operations creating one object, objects 0 and 2 -/
+example : arityOk decls₀ 0 [.int] = true ∧
+    histS = [] ++ Op.instAt 7 0 [.int] :: [.write 0 0 .string, .instAt 8 0 [.string]] ++
+      Op.instAt 7 0 [.int] :: histS.drop 4 := by decide
+/- `C19_alone` with `o` the third execution of node 7 -/
+example : creates decls₀ (Op.instAt 7 0 [.int]) = some ⟨0, some [.int]⟩ := by decide
 
 end C19
